@@ -18,7 +18,7 @@ T = {
          'Coq refinement proof (block-sparse -> dense) over translated source (_tensordot_blockwise, drop_misaligned_sectors: Gen/BlockwiseGen.v proved Leibniz-equal to the model) + cases.v correspondence + numpy oracle on own dense embedding'),
  'C03': ('the GENERATED Koszul routine equals the odd-odd inversion parity for every permutation; value-level theorems for transpose / phase operations; '
          'contraction sign formula and element-level formula in all modes; matmul/trace/einsum values; independent dense graded reference as oracle',
-         'Coq proof over translated source (PhasePerm) + hand model correspondence + independent graded-tensor oracle'),
+         'Coq proof over translated source (Koszul routine, sign-table methods, label resolution and the contraction front end tensordot_fermionic/__matmul__: Gen/FtdotGen.v equal to the model) + correspondence + independent graded-tensor oracle'),
  'C04': ('translated label order is a strict total order; the phased sort terminates and returns the sorted merge with the inversion-parity sign; ARRAY level: '
          'operand swap = fermionic transpose of the result, axis re-listing, associativity of a chain in general position with ANY mode on all four contractions, '
          'several pairs in one call = one pair after the other (C04d)',
@@ -61,7 +61,7 @@ T = {
          'Coq refinement + interleaving proofs over generated key/context-manager terms + history correspondence + forced-schedule replay'),
  'C16': ('constructors agree (from_blocks / from_fill_fn / direct, charge inference), to_dense∘from_dense = projection, from_dense∘to_dense = identity; generated defaults '
          'and class symmetry table; construction routes compared on the implementation',
-         'Coq round-trip proofs + generated constructor defaults + correspondence + numpy projection oracle'),
+         'Coq round-trip proofs over translated source (constructors, charge inference, from_dense/to_dense: Gen/CtorAlgGen.v equal to the model; defaults) + correspondence + numpy projection oracle'),
  'C17': ('GroupLaws for the five symmetries on definitions regenerated from symmetries.py (all integers / all valid charges); sector enumeration exact '
          '(none missing, extra or repeated) for every symmetry with the laws, every rank',
          'Coq proof over translated source (group operations, gen_valid_sectors, is_valid_sector) + vm_compute correspondence'),
